@@ -22,6 +22,9 @@ type Case struct {
 	D         isaenc.Desc `json:"d"`
 	Exec      uint64      `json:"exec"`
 	ExecShape string      `json:"exec_shape"`
+	// Exec2: a sub-mask of Exec: the instruction is run a second time with only these lanes
+	// enabled; every lane whose own EXEC bit is the same in the two runs must end up the same
+	Exec2 uint64 `json:"exec2"`
 	PermKind  string      `json:"perm_kind"`
 	Perm      []uint8     `json:"perm"` // lane i of the input becomes lane Perm[i]
 	VCC       uint64      `json:"vcc"`
@@ -470,6 +473,16 @@ func genCaseFor(t *rapid.T, arch wfstate.Arch, k opKey) Case {
 	c := Case{Arch: string(arch)}
 	c.D = genDesc(t, arch, k)
 	c.Exec, c.ExecShape = genExec(t)
+	switch pick(t, "exec2_kind", 4) {
+	case 0:
+		c.Exec2 = 0
+	case 1:
+		c.Exec2 = c.Exec & ubits(t, "exec2_and", 64)
+	case 2:
+		c.Exec2 = c.Exec &^ (1 << uint(pick(t, "exec2_drop", 64)))
+	default:
+		c.Exec2 = c.Exec & (1 << uint(pick(t, "exec2_keep", 64)))
+	}
 	c.Perm, c.PermKind = genPerm(t)
 	c.VCC = genMask(t, "vcc", c.Exec)
 	c.MaskIn = genMask(t, "mask_in", c.Exec)
@@ -970,6 +983,49 @@ func RunCase(c Case) (res stats.Result) {
 	for lane := 0; lane < 64; lane++ {
 		if s2.EXEC&(1<<uint(lane)) == 0 && !bytes.Equal(s2.Row(lane), r2.After.Row(lane)) {
 			return fail("inactive-write", "pi(s): a VGPR of INACTIVE lane %d changed; EXEC=0x%016x", lane, s2.EXEC)
+		}
+	}
+	// (4) a lane does not depend on the EXEC bits of OTHER lanes: with a sub-mask of EXEC
+	// every lane whose own bit is unchanged (active in both runs, or inactive in both) ends
+	// with the same vector registers and the same bit in every lane-mask result
+	if e2 := c.Exec2 & c.Exec; e2 != c.Exec {
+		s3 := s1.Clone()
+		s3.EXEC = e2
+		r3 := wfstate.Run(p.arch, p.inst, s3, p.lds, p.newMem())
+		if r3.PanicKind != wfstate.PanicNone {
+			return fail("exec-independence", "runs with EXEC=0x%016x but panics with the sub-mask 0x%016x (%s): %s", c.Exec, e2, r3.PanicKind, r3.PanicMsg)
+		}
+		res.Labels = append(res.Labels, "exec-submask")
+		same := ^(c.Exec ^ e2)
+		for lane := 0; lane < 64; lane++ {
+			if same&(1<<uint(lane)) != 0 && !bytes.Equal(r1.After.Row(lane), r3.After.Row(lane)) {
+				for r := 0; r < 256; r++ {
+					if a, b := r1.After.V(lane, r), r3.After.V(lane, r); a != b {
+						return fail("exec-independence", "v%d of lane %d (EXEC bit %d in both runs) is 0x%08x with EXEC=0x%016x but 0x%08x with EXEC=0x%016x", r, lane, c.Exec>>uint(lane)&1, a, c.Exec, b, e2)
+					}
+				}
+			}
+		}
+		maskDiff := func(what string, a, b uint64) string {
+			if d := (a ^ b) & same; d != 0 {
+				lane := bits.TrailingZeros64(d)
+				return fmt.Sprintf("bit %d of %s (the lane's EXEC bit is %d in both runs) is %d with EXEC=0x%016x but %d with EXEC=0x%016x", lane, what, c.Exec>>uint(lane)&1, a>>uint(lane)&1, c.Exec, b>>uint(lane)&1, e2)
+			}
+			return ""
+		}
+		if d := maskDiff("VCC", r1.After.VCC, r3.After.VCC); d != "" {
+			return fail("exec-independence", "%s", d)
+		}
+		for _, n := range p.pairs {
+			if d := maskDiff(fmt.Sprintf("s[%d:%d]", n, n+1), r1.After.SPair(n), r3.After.SPair(n)); d != "" {
+				return fail("exec-independence", "%s", d)
+			}
+		}
+		// (v_cmpx: the new EXEC is a lane mask as well)
+		if r1.After.EXEC != c.Exec || r3.After.EXEC != e2 {
+			if d := maskDiff("EXEC", r1.After.EXEC, r3.After.EXEC); d != "" {
+				return fail("exec-independence", "%s", d)
+			}
 		}
 	}
 	return res
